@@ -398,10 +398,68 @@ def mutably(f, operand):
     return mut_borrowed(f, operand)
 
 
+def every_rules_file_kept(ctx):
+    """`reports for several rules files are the union of the individual reports` needs every rules file that was read to reach the
+    evaluation: the fold in get_rule_info pushes the item exactly once on every path on which the read succeeded (no filtering,
+    de-duplication or early exit), and returns the error otherwise"""
+    rule = "R-C09-partition"
+    cr = ctx.bin
+    keys = sorted(k for k in cr.fns if k.startswith("commands::validate::get_rule_info::{closure#"))
+    done = False
+    for k in keys:
+        f = cr.fns[k]
+        if f["argc"] != 3 or M.Ty(cr, f["locals"][3]).adt_path() != ai.RESULT:      # the try_fold closure: (env, accumulator, item: Result<..>)
+            continue
+        done = True
+        rets = []
+
+        class H(ai.Hooks):
+            def ret(self, a, st, v):
+                rets.append((v, st.mon or Mon(), a.resolve(st, a.read_place(st, st.frames[0], 3)) if False else None))
+
+            def call(self, a, st, term, callee, args):
+                p = M.norm_path(callee.get("path", ""))
+                mon = st.mon or Mon()
+                if st.top is not st.frames[0]:
+                    return None
+                if p == "std::vec::Vec::push":
+                    return [(("tuple", ()), mon.set(pushes=mon.get("pushes", 0) + 1, pushed=ai.fmt_val(a.resolve(st, args[1]))[:60]))]
+                if p.endswith("Writer::write_err"):
+                    return [(("enum", ai.RESULT, 0, (("tuple", ()),)), mon.set(reported=True)), (("enum", ai.RESULT, 1, (("sym", "IOERR"),)), mon.set(reported=True))]
+                return None
+
+            def constrained(self, a, st, sid, val):
+                if sid == "arg3" and val[0] == "enum" and val[1] == ai.RESULT:
+                    st.mon = (st.mon or Mon()).set(item="ok" if val[2] == 0 else "err")
+        a = ai.AI(cr, H())
+        try:
+            a.run(k, mon=Mon())
+        except ai.Undecided as e:
+            ctx.ob(rule, rule + ":every-rules-file-kept", False, "undecided %s" % e, fn=f)
+            return
+        ctx.states += a.n_states
+        bad = []
+        n_ok = 0
+        for v, mon, _ in rets:
+            is_ok = v[0] == "enum" and v[1] == ai.RESULT and v[2] == 0
+            if mon.get("item") == "ok":
+                n_ok += 1
+                if not is_ok:
+                    bad.append("a rules file that was read successfully makes the fold return an error")
+                elif mon.get("pushes", 0) != 1 or "arg3" not in str(mon.get("pushed")):
+                    bad.append("a rules file that was read successfully is pushed %d times (%s): it is dropped / duplicated before evaluation" % (mon.get("pushes", 0), mon.get("pushed")))
+            elif mon.get("item") == "err" and is_ok:
+                bad.append("a read error is swallowed (the fold continues with Ok)")
+        ctx.ob(rule, rule + ":every-rules-file-kept", not bad and n_ok >= 1, "; ".join(sorted(set(bad))[:2]) or "%d success paths, each pushes the item once" % n_ok, fn=f)
+    if not done:
+        ctx.lost(rule, rule + ":every-rules-file-kept", "the try_fold closure of commands::validate::get_rule_info")
+
+
 def run(ctx):
     cr = ctx.lib
     partition(ctx, cr)
     builder(ctx, cr)
+    every_rules_file_kept(ctx)
     ctx.assumptions += [
         "rule names are distinct (the property's quantifier); two rules sharing a name share one set entry",
         "the evaluation record handed to the builder is the one produced by the evaluator (C02 decides its shape)",
